@@ -8,8 +8,9 @@ From Verif Require Import Common.Base Common.Tactics Binary.Model Binary.Spec Bi
 
 (* ---- write / read round trip ------------------------------------------------------------------------ *)
 (* Every list of typed values (u/i 8,16,24,32,64, byte strings), both byte orders: reading the written
-   buffer back on every healthy backend (in-memory bytes; io.Reader, io.ReadSeeker / file with ANY
-   partition of the stream into non-empty reads; io.ReaderAt) returns the values, then
+   buffer back on every healthy backend (in-memory bytes; memory map; io.Reader, io.ReadSeeker / file with
+   ANY partition of the stream into non-empty reads, io.EOF after or together with the last bytes;
+   io.ReaderAt, with or without io.EOF on an exact fit) returns the values, then
    Pos() = bytes consumed, Len() = bytes remaining, Err() = nil.  No panic. *)
 Theorem write_read_roundtrip :
   forall (s : bstate) (little : bool) (vs1 vs2 : list value),
@@ -21,18 +22,18 @@ Theorem write_read_roundtrip :
 Proof. exact write_read_roundtrip_proof. Qed.
 Print Assumptions write_read_roundtrip.
 
-(* The same on the mmap backend, for value lists without empty byte strings.  Missing: empty byte
-   strings (false there, see mmap_empty_read_at_end_refuted). *)
-Theorem write_read_roundtrip_mmap_partial :
+(* In particular on the mmap backend, empty byte strings included (a memory map is a healthy source since
+   fix c003402). *)
+Theorem write_read_roundtrip_mmap :
   forall (little : bool) (vs1 vs2 : list value),
-    Forall valid_value vs1 -> Forall (fun v => value_size v <> 0) vs1 ->
+    Forall valid_value vs1 ->
     exists st' outs,
       run any_backend (new_sys (SMmap (mmap_open (write_all little (vs1 ++ vs2)))))
           (OOrder little :: map read_op vs1 ++ [OPos; OLen; OErr]) =
         Some (st', VNone :: outs ++ [VInt (values_size vs1); VInt (values_size vs2); VInt 0]) /\
       Forall2 returns outs vs1.
-Proof. exact write_read_roundtrip_mmap_proof. Qed.
-Print Assumptions write_read_roundtrip_mmap_partial.
+Proof. exact (fun little vs1 vs2 => write_read_roundtrip_proof _ little vs1 vs2 (H_mmap _)). Qed.
+Print Assumptions write_read_roundtrip_mmap.
 
 (* ---- backend independence ----------------------------------------------------------------------------- *)
 (* As long as no read has run past the end on the in-memory backend (Err() nil after every step), every
@@ -48,12 +49,12 @@ Theorem backend_independence :
 Proof. exact backend_independence_proof. Qed.
 Print Assumptions backend_independence.
 
-(* Past the end as well: for every supported operation sequence without the 8-bit reads (which panic past
-   the end on the stream backends), every healthy backend returns what the in-memory backend returns -
-   values, counts, errors, positions - up to the nil-ness of the slice ReadBytes returns (obs_eqv). *)
+(* Past the end as well: for EVERY supported operation sequence (8-bit reads included since fix f2080b8),
+   every healthy backend returns what the in-memory backend returns - values, counts, errors, positions -
+   up to the nil-ness of the slice ReadBytes returns (obs_eqv). *)
 Theorem backend_independence_past_end :
   forall (s : bstate) (d : list Z) (ops : list op),
-    healthy s d -> Forall (allowed (random_access s)) ops -> Forall (fun o => ~ is8 o) ops ->
+    healthy s d -> Forall (allowed (random_access s)) ops ->
     exists st' sb' outs outsb,
       run any_backend (new_sys s) ops = Some (st', outs) /\
       run bytes_backend (new_sys d) ops = Some (sb', outsb) /\
@@ -61,29 +62,31 @@ Theorem backend_independence_past_end :
 Proof. exact backend_independence_past_end_proof. Qed.
 Print Assumptions backend_independence_past_end.
 
-(* The constructors build healthy sources: NewBinaryReaderBytes, a reader with Bytes(), a file, the
-   io.ReadAll path (n < 0; for ANY read schedule, zero-length reads and EOF-with-data included),
-   io.Reader / io.ReadSeeker whose reads are non-empty, io.ReaderAt. *)
+(* The constructors build healthy sources: NewBinaryReaderBytes, a reader with Bytes(), a memory map, a file,
+   the io.ReadAll path (n < 0; for ANY read schedule, zero-length reads included), io.Reader / io.ReadSeeker
+   whose reads are non-empty (io.EOF after or with the last bytes), io.ReaderAt. *)
 Theorem constructors_healthy :
   forall (d sched : list Z),
     (forall ewl failing, construct CBytes d sched ewl failing = Some (SBytes d)) /\
     (forall n ewl failing, construct (CHasBytes n) d sched ewl failing = Some (SBytes d)) /\
+    (forall ewl failing, exists s, construct CMmap d sched ewl failing = Some s /\ healthy s d) /\
     (forall ewl failing, exists s, construct (CFile (len d)) d sched ewl failing = Some s /\ healthy s d) /\
     (forall n ewl, n < 0 -> construct (CPlain n) d sched ewl false = Some (SBytes d)) /\
     (forall n ewl, n < 0 -> construct (CReaderAt n) d sched ewl false = Some (SBytes d)) /\
-    (positive_sched sched -> exists s, construct (CPlain (len d)) d sched false false = Some s /\ healthy s d) /\
-    (positive_sched sched -> forall n, n = len d \/ n < 0 ->
-       exists s, construct (CSeeker n) d sched false false = Some s /\ healthy s d) /\
-    (exists s, construct (CReaderAt (len d)) d [] false false = Some s /\ healthy s d) /\
+    (positive_sched sched -> forall ewl,
+       exists s, construct (CPlain (len d)) d sched ewl false = Some s /\ healthy s d) /\
+    (positive_sched sched -> forall n ewl, n = len d \/ n < 0 ->
+       exists s, construct (CSeeker n) d sched ewl false = Some s /\ healthy s d) /\
+    (forall ewl, exists s, construct (CReaderAt (len d)) d [] ewl false = Some s /\ healthy s d) /\
     healthy (SBytes d) d.
 Proof. exact constructors_healthy_proof. Qed.
 Print Assumptions constructors_healthy.
 
-(* The mmap backend is the in-memory backend for EVERY operation sequence without zero-length requests
-   (and without Close), past the end and after errors included: same observations, same panics. *)
+(* The mmap backend is the in-memory backend for EVERY operation sequence without Close (zero-length and
+   negative-length requests, reads past the end and after errors included): same observations, no panics. *)
 Theorem mmap_bytes_identical :
   forall (d : list Z) (ops : list op),
-    Forall nonzero_len ops ->
+    Forall no_close ops ->
     run any_backend (new_sys (SMmap (mmap_open d))) ops =
     match run any_backend (new_sys (SBytes d)) ops with
     | Some (st', outs) => Some (mkSys (SMmap (mmap_open d)) (cur st') (oth st'), outs)
@@ -93,16 +96,14 @@ Proof. exact mmap_bytes_identical_proof. Qed.
 Print Assumptions mmap_bytes_identical.
 
 (* ---- EOF exactly past the end --------------------------------------------------------------------------- *)
-(* In every state a healthy source of d can reach (any supported history: reads past the end, seeks,
-   clones ...), a typed read of width w at position p never panics and
+(* In every state a healthy source of d can reach (any backend, any supported history: reads past the end,
+   seeks, clones ...), EVERY typed read of width w at position p never panics and
    - if p + w <= len d: returns the Go expression applied to d[p:p+w], Pos advances by w, Err() unchanged;
    - if it needs a byte at an index >= len d: returns the zero value (ReadBytes: the bytes left),
-     Pos = max p (len d), Err() becomes io.EOF (an earlier error is kept).
-   The 8-bit reads (ReadUint8/ReadInt8/ReadByte) are covered on the in-memory backend only: on the
-   stream backends they panic past the end (read8_past_end_streams_refuted). *)
+     Pos = max p (len d), Err() becomes io.EOF (an earlier error is kept). *)
 Theorem eof_exactly_past_end :
   forall (d : list Z) (st : sys bstate) (o : op),
-    reachable d st -> typed_read o -> (is8 o -> in_memory (bst st)) ->
+    reachable d st -> typed_read o ->
     let p := rpos (cur st) in
     let w := op_width o in
     exists st' v,
@@ -122,7 +123,6 @@ Print Assumptions eof_exactly_past_end.
 Theorem eof_sticky :
   forall (d : list Z) (ops : list op) (st : sys bstate),
     reachable d st -> len d <= rpos (cur st) -> Forall typed_read ops ->
-    (in_memory (bst st) \/ Forall (fun o => ~ is8 o) ops) ->
     let e := if rerr (cur st) =? 0 then E_EOF else rerr (cur st) in
     exists st' outs,
       run any_backend st ops = Some (st', outs) /\ reachable d st' /\
@@ -131,54 +131,65 @@ Theorem eof_sticky :
 Proof. exact eof_sticky_proof. Qed.
 Print Assumptions eof_sticky.
 
-(* REFUTED for the stream backends (io.Reader, file / io.ReadSeeker, io.ReaderAt), healthy sources:
-   after the single byte has been read with Err() = nil, ReadUint8 / ReadByte / ReadInt8 panic
-   (index out of range) instead of returning 0 with io.EOF; the in-memory backend returns 0, io.EOF. *)
-Theorem read8_past_end_streams_refuted :
-  healthy (SReader (mkR [7] [] false E_EOF 0 1)) [7] /\
-  healthy (SSeeker (mkK [7] [] false E_EOF 1 false true)) [7] /\
-  healthy (SReaderAt (mkA [7] [] false E_EOF 1)) [7] /\
-  run any_backend (new_sys (SReader (mkR [7] [] false E_EOF 0 1))) [OU8; OErr; OU8] = None /\
-  run any_backend (new_sys (SSeeker (mkK [7] [] false E_EOF 1 false true))) [OU8; OErr; OReadByte] = None /\
-  run any_backend (new_sys (SReaderAt (mkA [7] [] false E_EOF 1))) [OU8; OErr; OI8] = None /\
-  option_map snd (run any_backend (new_sys (SBytes [7])) [OU8; OErr; OU8; OErr]) =
+(* Formerly read8_past_end_streams_refuted (fixed by f2080b8): ReadUint8 / ReadInt8 / ReadByte at or past the
+   end return 0 (ReadByte: 0, io.EOF) on EVERY backend in every reachable state, no panic. *)
+Theorem read8_past_end_all_backends :
+  forall (d : list Z) (st : sys bstate) (o : op),
+    reachable d st -> (o = OU8 \/ o = OI8 \/ o = OReadByte) -> len d <= rpos (cur st) ->
+    let e := if rerr (cur st) =? 0 then E_EOF else rerr (cur st) in
+    exists st',
+      step any_backend st o = Some (st', match o with OReadByte => VIntErr 0 e | _ => VInt 0 end) /\
+      reachable d st' /\ rpos (cur st') = rpos (cur st) /\ rerr (cur st') = e.
+Proof. exact read8_past_end_all_backends_proof. Qed.
+Print Assumptions read8_past_end_all_backends.
+
+(* ... and the three former panic witnesses (io.Reader, file, io.ReaderAt over one byte) now compute 0, io.EOF. *)
+Theorem read8_past_end_streams :
+  option_map snd (run any_backend (new_sys (SReader (mkR [7] [] false E_EOF 0 1))) [OU8; OErr; OU8; OErr]) =
+    Some [VInt 7; VInt 0; VInt 0; VInt E_EOF] /\
+  option_map snd (run any_backend (new_sys (SSeeker (mkK [7] [] false E_EOF 1 false true))) [OU8; OErr; OReadByte; OErr]) =
+    Some [VInt 7; VInt 0; VIntErr 0 E_EOF; VInt E_EOF] /\
+  option_map snd (run any_backend (new_sys (SReaderAt (mkA [7] [] false E_EOF 1))) [OU8; OErr; OI8; OErr]) =
     Some [VInt 7; VInt 0; VInt 0; VInt E_EOF].
-Proof. exact read8_past_end_streams_refuted_proof. Qed.
-Print Assumptions read8_past_end_streams_refuted.
+Proof. exact read8_past_end_streams_proof. Qed.
+Print Assumptions read8_past_end_streams.
 
-(* REFUTED for sources that deliver io.EOF together with the last bytes (allowed by io.Reader and
-   io.ReaderAt; iotest.DataErrReader): ReadUint16 on exactly two bytes returns the value but Err() = io.EOF
-   although no read ran past the end. *)
-Theorem eof_with_last_bytes_refuted :
-  option_map snd (run any_backend (new_sys (SReader (mkR [1; 2] [] true E_EOF 0 2))) [OU16; OErr; OPos; OLen]) =
-    Some [VInt 258; VInt E_EOF; VInt 2; VInt 0] /\
+(* Formerly eof_with_last_bytes_refuted (fixed by 4fcdee5): sources that deliver io.EOF together with the last
+   bytes (iotest.DataErrReader; io.ReaderAt on an exact fit) are healthy sources, so every theorem above
+   covers them; the former witnesses leave Err() = nil and report io.EOF only on the next read. *)
+Theorem eof_with_last_bytes :
+  (forall d sched closer, positive_sched sched ->
+     healthy (SReader (mkR d sched true E_EOF 0 (len d))) d /\
+     healthy (SSeeker (mkK d sched true E_EOF (len d) false closer)) d /\
+     healthy (SReaderAt (mkA d [] true E_EOF (len d))) d) /\
+  option_map snd (run any_backend (new_sys (SReader (mkR [1; 2] [] true E_EOF 0 2))) [OU16; OErr; OPos; OLen; OU8; OErr]) =
+    Some [VInt 258; VInt 0; VInt 2; VInt 0; VInt 0; VInt E_EOF] /\
   option_map snd (run any_backend (new_sys (SSeeker (mkK [1; 2] [] true E_EOF 2 false false))) [OU16; OErr]) =
-    Some [VInt 258; VInt E_EOF] /\
+    Some [VInt 258; VInt 0] /\
   option_map snd (run any_backend (new_sys (SReaderAt (mkA [1; 2] [] true E_EOF 2))) [OU16; OErr]) =
-    Some [VInt 258; VInt E_EOF] /\
-  option_map snd (run any_backend (new_sys (SBytes [1; 2])) [OU16; OErr]) = Some [VInt 258; VInt 0].
-Proof. exact eof_with_last_bytes_refuted_proof. Qed.
-Print Assumptions eof_with_last_bytes_refuted.
+    Some [VInt 258; VInt 0].
+Proof. exact eof_with_last_bytes_proof. Qed.
+Print Assumptions eof_with_last_bytes.
 
-(* REFUTED for sources that once return (0, nil) (allowed by io.Reader): the read fails inside the data with
-   "could not read all bytes" (value 0, one byte consumed); an 8-bit read then even panics. *)
+(* STILL REFUTED for sources that once return (0, nil) (allowed by io.Reader): the read fails inside the data
+   with "could not read all bytes" (value 0, Err() set, one byte consumed); no panic any more. *)
 Theorem zero_length_read_refuted :
   option_map snd (run any_backend (new_sys (SReader (mkR [1; 2; 3] [1; 0] false E_EOF 0 3))) [OU16; OErr; OPos]) =
     Some [VInt 0; VInt E_SHORT; VInt 1] /\
-  run any_backend (new_sys (SSeeker (mkK [1; 2; 3] [0] false E_EOF 3 false false))) [OU8] = None.
+  option_map snd (run any_backend (new_sys (SSeeker (mkK [1; 2; 3] [0] false E_EOF 3 false false))) [OU8; OErr; OPos]) =
+    Some [VInt 0; VInt E_SHORT; VInt 0].
 Proof. exact zero_length_read_refuted_proof. Qed.
 Print Assumptions zero_length_read_refuted.
 
-(* REFUTED for mmap: after WriteUint8(5), WriteBytes(empty) the reads ReadUint8, ReadBytes(0) leave
-   Err() = io.EOF on the mmap backend and nil on the in-memory backend. *)
-Theorem mmap_empty_read_at_end_refuted :
+(* Formerly mmap_empty_read_at_end_refuted (fixed by c003402): a memory map is a healthy source; after
+   WriteUint8(5), WriteBytes(empty) the reads ReadUint8, ReadBytes(0) leave Err() = nil. *)
+Theorem mmap_empty_read_at_end :
+  (forall d, healthy (SMmap (mmap_open d)) d) /\
   option_map snd (run any_backend (new_sys (SMmap (mmap_open [5]))) [OU8; OReadBytes 0; OErr]) =
-    Some [VInt 5; VData true []; VInt E_EOF] /\
-  option_map snd (run any_backend (new_sys (SBytes [5])) [OU8; OReadBytes 0; OErr]) =
     Some [VInt 5; VData true []; VInt 0] /\
   write_all false [VU8 5; VBytes []] = [5].
-Proof. exact mmap_empty_read_at_end_refuted_proof. Qed.
-Print Assumptions mmap_empty_read_at_end_refuted.
+Proof. exact mmap_empty_read_at_end_proof. Qed.
+Print Assumptions mmap_empty_read_at_end.
 
 (* The in-memory and the mmap backend never panic: every operation sequence with arbitrary arguments
    (negative lengths and offsets, reads after Close, any whence) from any state runs to the end. *)
@@ -284,7 +295,7 @@ Print Assumptions bitmap_all_bits_huge_refuted.
 (* ---- the repaired defects ------------------------------------------------------------------------------------ *)
 (* The four lines as they were before the fix: commits, on the inputs of DESIGN section 2 (D11, D12, D13 and
    the ReadInt24 sign), against what the current model computes: a revert of any of them contradicts
-   seek_spec / write_read_roundtrip_mmap_partial / bitmap_all_bits_partial / write_read_roundtrip. *)
+   seek_spec / write_read_roundtrip_mmap / bitmap_all_bits_partial / write_read_roundtrip. *)
 Theorem prefix_defects_legacy_refuted :
   seek_end_legacy 10 (-3) = 13 /\
   snd (seek bytes_backend (new_sys [1; 2; 3; 4; 5; 6; 7; 8; 9; 10]) (-3) 2) = VIntErr 7 E_NIL /\
